@@ -390,6 +390,10 @@ impl PqMapper<RelationExpr, RelationExpr, (), ()> for SortingInference<'_> {
                     // single Take with embedded sort, while explicit SqlTransform::Sort
                     // only appears when sort is not immediately followed by take.
                     let sort_to_emit = if take.partition.is_empty() && !take.sort.is_empty() {
+                        // The embedded sort is the sorting of this relation from here on
+                        // (`take` retains the order): a CTE must select its columns, and
+                        // relations reading from it inherit it.
+                        sorting.clone_from(&take.sort);
                         take.sort.clone()
                     } else {
                         sorting.clone()
